@@ -24,12 +24,14 @@ type Inject struct {
 	Flush []string `json:"flush"`
 	At    int      `json:"at"`
 	Op    *gen.Op  `json:"op"`
+	// Resolved: the RIB's resolved-entry hook is registered as well (see inject.Spec)
+	Resolved bool `json:"resolved,omitempty"`
 }
 
 func runInject(c Case) *ev.Verdict {
 	v := &ev.Verdict{}
 	in := c.Inject
-	res := inject.Run(c.H, inject.Spec{Flush: in.Flush, At: in.At, Op: in.Op}, nil)
+	res := inject.Run(c.H, inject.Spec{Flush: in.Flush, At: in.At, Op: in.Op, Resolved: in.Resolved}, nil)
 	r, m := res.R, res.Before
 	if res.Pre == nil {
 		v.Fail("C08/contents-unreadable", "before the flush")
@@ -120,6 +122,7 @@ func drawInject(rt *rapid.T) Case {
 		in.Flush = rapid.Permutation(append([]string(nil), hgen.NIs...)).Draw(rt, "order")
 	}
 	in.At = rapid.IntRange(1, max(1, len(belief.Ent))).Draw(rt, "at")
+	in.Resolved = rapid.Bool().Draw(rt, "resolved-entry-hook")
 	// an operation aimed at the contents: mostly a top-level entry pointing at an installed
 	// group, otherwise anything the history generator would draw
 	var groups []gen.EntryKey
